@@ -1,7 +1,7 @@
 (* C05 — criteria mean their implication closure, nothing more, however written. *)
 Require Import Base Extracted Criteria Search AuditGraph.
 Require Import DepGraph Resolve.
-Require Import CriteriaProofs AuditGraphProofs RewriteProofs.
+Require Import CriteriaProofs AuditGraphProofs RewriteProofs RewritePolicy.
 Local Open Scope N_scope.
 
 (* X counts for X and everything X transitively implies, and for nothing else:
@@ -63,6 +63,25 @@ Theorem C05_verdict_invariant_under_rewriting : forall t (rw : list N -> list N)
   resolve inp (rw_store rw s) = resolve inp s.
 Proof. intros t rw inp s H Ht. exact (resolve_rw t rw H inp s Ht). Qed.
 
+(* ... and the same for the POLICY table: rewrite every `criteria`, `dev-criteria` and `dependency-criteria`
+   list of every policy entry to any list with the same meaning — the requirement vector, every
+   per-package outcome and the conclusion are identical (the graph only differs in the lists it carries) *)
+Theorem C05_verdict_invariant_under_policy_rewriting : forall t (rw : list N -> list N) inp s,
+  (forall l, from_list t (rw l) = from_list t l) -> st_criteria s = t ->
+  r_requirements (resolve (rw_inp rw inp) s) = r_requirements (resolve inp s) /\
+  r_outcomes (resolve (rw_inp rw inp) s) = r_outcomes (resolve inp s) /\
+  r_conclusion (resolve (rw_inp rw inp) s) = r_conclusion (resolve inp s).
+Proof. intros t rw inp s H Ht. destruct (resolve_rw_policy t rw H inp s Ht) as [A [B [C _]]]. auto. Qed.
+(* both at once: the store's lists and the policy's lists rewritten by (possibly different) meaning-preserving maps *)
+Theorem C05_verdict_invariant_store_and_policy : forall t (rw1 rw2 : list N -> list N) inp s,
+  (forall l, from_list t (rw1 l) = from_list t l) -> (forall l, from_list t (rw2 l) = from_list t l) -> st_criteria s = t ->
+  r_conclusion (resolve (rw_inp rw2 inp) (rw_store rw1 s)) = r_conclusion (resolve inp s).
+Proof.
+  intros t rw1 rw2 inp s H1 H2 Ht.
+  destruct (resolve_rw_policy t rw2 H2 inp (rw_store rw1 s) Ht) as [_ [_ [C _]]]. rewrite C.
+  rewrite (resolve_rw t rw1 H1 inp s Ht). reflexivity.
+Qed.
+
 (* the three rewritings the property names *)
 Definition in_table (t : ctable) (l : list N) : bool := forallb (fun c => N.ltb c (N.of_nat (ct_len t))) l.
 Definition rw_reorder_duplicate (l : list N) : list N := rev l ++ l.
@@ -103,6 +122,8 @@ Example C05_nonvacuous :
   ct_acyclic [[1]] = true.
 Proof. vm_compute. auto. Qed.
 
+Print Assumptions C05_verdict_invariant_under_policy_rewriting.
+Print Assumptions C05_verdict_invariant_store_and_policy.
 Print Assumptions C05_closure_is_least.
 Print Assumptions C05_exact_meaning.
 Print Assumptions C05_reorder_duplicate.
